@@ -425,6 +425,21 @@ Theorem c17_gate_all_entry_points_partial :
 Proof. exact all_entry_points_gated_partial. Qed.
 Print Assumptions c17_gate_all_entry_points_partial.
 
+(* "every request that carries another signature is rejected" is FALSE as stated: the proxy's
+   tear-down notice (Gone) is honoured - the multiplexing sessions of that proxy are stopped -
+   before the signature is looked at.  The version that holds is c17_gate_master_refuses
+   (hypothesis q_gone m = false), restated here *)
+Theorem c17_gate_every_mismatch_rejected_refuted : ~ every_mismatch_rejected_statement.
+Proof. exact every_mismatch_rejected_refuted. Qed.
+Print Assumptions c17_gate_every_mismatch_rejected_refuted.
+
+Theorem c17_gate_every_mismatch_rejected_partial : forall (sigf : list str -> str) s m full,
+  q_gone m = false ->
+  smem (q_node m) (n_peers s) = true -> q_sig m <> cur_sig sigf s ->
+  snd (topic_master sigf s m full) = ORejectedSig.
+Proof. intros sigf s m full Hg Hn Hs. rewrite (topic_master_refuses sigf s m full Hg Hn Hs). reflexivity. Qed.
+Print Assumptions c17_gate_every_mismatch_rejected_partial.
+
 (* C.2 with the ring of part A (any hash, any digest, any replica count).  Nodes whose rings
    differ refuse each other's topic traffic: after any history, an honest message made under
    the node list L passes the gate of a receiver whose ring is built from [n_ring s] only if the
